@@ -95,7 +95,17 @@ def _c_postselect_reset(p):
     return [m0, m1]
 
 
-CIRCUITS = {"cond RY": _c_basic, "reset + cond X": _c_reset, "cond with else branch": _c_else, "two MCMs, & and + arithmetic": _c_two, "MCM on an entangled pair, ~m": _c_entangled,
+def _c_late_postselect(p):
+    qp.RX(p[0], 0)
+    m0 = qp.measure(0)
+    qp.cond(m0, qp.RY)(p[1], wires=1)
+    qp.RX(p[2], 1)
+    m1 = qp.measure(1, postselect=1)
+    qp.cond(m1, qp.PauliX)(wires=0)
+    return [m0, m1]
+
+
+CIRCUITS = {"second MCM postselected, success probability depends on the first outcome": _c_late_postselect, "cond RY": _c_basic, "reset + cond X": _c_reset, "cond with else branch": _c_else, "two MCMs, & and + arithmetic": _c_two, "MCM on an entangled pair, ~m": _c_entangled,
             "postselect=1": _c_postselect, "same wire measured twice, m0^m1": _c_twice, "postselect=0 with reset, then second MCM": _c_postselect_reset}
 
 MEAS = {
